@@ -55,6 +55,8 @@ class Server:
             if line.startswith(b'CONNECT'):
                 if b'badtunnel' in line:
                     loop.call_soon(conn.send, b'HTTP/1.1 502 Bad Gateway\r\nContent-Length: 0\r\n\r\n')
+                elif b'garbled' in line:
+                    loop.call_soon(conn.send, b'\x16\x03\x01 garbage, not HTTP\r\n\r\n')
                 else:
                     loop.call_soon(conn.send, b'HTTP/1.1 200 Connection established\r\n\r\n')
                 continue
@@ -183,18 +185,50 @@ HTTP_EVENTS = ('begin_request', 'request_data', 'end_request', 'begin_response',
 
 
 class FaultNet(fakenet.FakeNet):
-    """FakeNet whose n-th connection attempts (n in `refuse_attempts`) are refused."""
+    """FakeNet with scripted failures of connection attempts: `refuse_attempts` (n-th attempt refused),
+    `netfaults` {n-th attempt: kind}, `tlsfaults` {n-th TLS attempt (open_connection(..., ssl=...)): kind}."""
 
-    def __init__(self, refuse_attempts=()):
+    def __init__(self, refuse_attempts=(), netfaults=None, tlsfaults=None):
         super().__init__()
         self.refuse_attempts = set(refuse_attempts)
+        self.netfaults = dict(netfaults or {})
+        self.tlsfaults = dict(tlsfaults or {})
         self.attempts = 0
+        self.tls_attempts = 0
+
+    def clear_faults(self):
+        self.refuse_attempts = set()
+        self.netfaults = {}
+        self.tlsfaults = {}
+
+    @staticmethod
+    def raise_kind(kind):
+        if kind == 'refused':
+            raise ConnectionRefusedError(111, 'Connection refused')
+        if kind == 'sslcert':       # -> SSLVerificationError (an OSError, not a NetworkError)
+            raise ssl.SSLError(1, '[SSL: CERTIFICATE_VERIFY_FAILED] certificate verify failed: self signed certificate')
+        if kind == 'certerr':       # hostname mismatch -> SSLVerificationError
+            raise ssl.CertificateError("hostname 'origin.test' doesn't match 'other.test'")
+        if kind == 'sslother':      # -> NetworkError
+            raise ssl.SSLError(1, '[SSL: SSLV3_ALERT_HANDSHAKE_FAILURE] handshake failure')
+        if kind == 'oserror':       # -> NetworkError
+            raise OSError(5, 'Input/output error')
+        if kind == 'timeout':       # -> NetworkTimedOut
+            raise asyncio.TimeoutError()
+        raise ValueError('unknown fault kind %r' % kind)
 
     async def open_connection(self, host=None, port=None, **kwargs):
         n = self.attempts
         self.attempts += 1
         if n in self.refuse_attempts:
-            raise ConnectionRefusedError(111, 'Connection refused')
+            self.raise_kind('refused')
+        if n in self.netfaults:
+            self.raise_kind(self.netfaults[n])
+        if kwargs.get('ssl') is not None:
+            t = self.tls_attempts
+            self.tls_attempts += 1
+            if t in self.tlsfaults:
+                self.raise_kind(self.tlsfaults[t])
         return await super().open_connection(host, port, **kwargs)
 
 
@@ -209,9 +243,10 @@ def run_case(case):
 
     world = World()
     loop = sched.new_det_loop(case['seed'])
-    net = FaultNet(case.get('refuse', ()))
+    net = FaultNet(case.get('refuse', ()), case.get('netfaults'), case.get('tlsfaults'))
     net.default = lambda: Server(world)
-    faulty = bool(case.get('refuse')) or any('badtunnel' in j[0] for jobs in case['workers'] for j in jobs)
+    faulty = bool(case.get('refuse') or case.get('netfaults') or case.get('tlsfaults') or case.get('cancels')) or \
+        any('badtunnel' in j[0] or 'garbled' in j[0] for jobs in case['workers'] for j in jobs)
     try:
         with net, ConnHooks(world):
             if case['stream'] == 'proxy':
@@ -270,7 +305,7 @@ def run_case(case):
                         await fetch(i, url, linger, mode, fault)
                     except (InjectedOSError, InjectedError):
                         pass                # the injected listener failure reaches the caller: fine
-                    except (NetworkError, ProtocolError) as e:
+                    except (NetworkError, ProtocolError, OSError) as e:
                         world.fetch_errors.append((i, url, repr(e)))
                         if not faulty and not fault:
                             world.fail('error', 'fetch-failed', 'worker %s: %s failed with %r although the server behaved' % (i, url, e))
@@ -280,10 +315,17 @@ def run_case(case):
                         world.fail('error', 'foreign-exception', 'worker %s: %s raised %r' % (i, url, e))
                     pending_fault.pop('w%s' % i, None)
 
+            async def canceller(i, delay):
+                for _ in range(delay):
+                    await compat._ensure(_yield_once())
+                if i < len(workers) and not workers[i].done():
+                    workers[i].cancel()
+
             async def main():
                 for i, jobs in enumerate(case['workers']):
                     workers.append(loop.create_task(worker(i, jobs), name='w%d' % i))
-                await asyncio.gather(*workers)
+                cs = [loop.create_task(canceller(i, d), name='x%d' % n) for n, (i, d) in enumerate(case.get('cancels', ()))]
+                await asyncio.gather(*workers, *cs, return_exceptions=True)
 
             done, task = loop.run_until_quiescent(main(), max_steps=200000)
             loop.drain(20000)
@@ -314,9 +356,12 @@ def run_case(case):
             if not unfinished:
                 end_state('after every worker finished')
                 # "the next client gets a connection": one more plain fetch per origin used, no faults any more
-                net.refuse_attempts = set()
+                net.clear_faults()
                 origins = sorted({j[0].split('/')[0] + '//' + j[0].split('/')[2] for jobs in case['workers'] for j in jobs
-                                  if 'badtunnel' not in j[0]})
+                                  if 'badtunnel' not in j[0] and 'garbled' not in j[0]})
+                # origins whose tunnel can never be set up: the probe must still get its turn (and fail), not hang
+                bad = sorted({j[0].split('/')[0] + '//' + j[0].split('/')[2] for jobs in case['workers'] for j in jobs
+                              if 'badtunnel' in j[0] or 'garbled' in j[0]})
                 probe_errors = []
 
                 async def probe():
@@ -325,6 +370,12 @@ def run_case(case):
                             await fetch('P', o + '/probe', 0, 'web', None)
                         except Exception as e:
                             probe_errors.append((o, repr(e)))
+                    for o in bad:
+                        for _ in range(case['M'] + 1):
+                            try:
+                                await fetch('P', o + '/probe', 0, 'web', None)
+                            except Exception:
+                                pass
                 pt = loop.create_task(probe(), name='wP')
                 workers.append(pt)
                 loop.run_until_quiescent(_wait(pt), max_steps=200000)
@@ -348,6 +399,9 @@ async def _wait(task):
 
 
 BAD_TUNNEL = 'badtunnel.test'
+GARBLED = 'garbled.test'
+NET_KINDS = ('refused', 'oserror', 'timeout', 'sslcert')
+TLS_KINDS = ('sslcert', 'certerr', 'sslother', 'oserror', 'timeout')
 
 
 def gen_case(rng, stream, faults=False):
@@ -373,13 +427,20 @@ def gen_case(rng, stream, faults=False):
                     if rng.random() < 0.4:
                         fault.append((rng.choice(events), rng.choice(['os', 'bug'])))
                     fault = tuple(sorted(set(fault)))
-                if stream == 'proxy' and scheme == 'https' and rng.random() < 0.12:
-                    host = BAD_TUNNEL
+                if stream == 'proxy' and scheme == 'https' and rng.random() < 0.2:
+                    host = rng.choice([BAD_TUNNEL, GARBLED])
             jobs.append(('%s://%s%s' % (scheme, host, path), rng.choice([0, 0, 1, 2, 4, 8]), mode, fault))
         workers.append(jobs)
     case = {'stream': stream, 'seed': rng.randrange(1 << 30), 'M': m, 'workers': workers}
     if faults and rng.random() < 0.4:
         case['refuse'] = sorted({rng.randrange(0, 8) for _ in range(rng.choice([1, 1, 2]))})
+    if faults and rng.random() < 0.3:
+        case['netfaults'] = {rng.randrange(0, 8): rng.choice(NET_KINDS) for _ in range(rng.choice([1, 1, 2]))}
+    if faults and stream == 'proxy' and rng.random() < 0.5:
+        case['tlsfaults'] = {rng.randrange(0, 5): rng.choice(TLS_KINDS) for _ in range(rng.choice([1, 2, 3]))}
+    if faults and rng.random() < 0.35:
+        case['cancels'] = [(rng.randrange(nworkers), rng.choice([0, 1, 2, 3, 4, 5, 6, 8, 10, 13, 17, 25, 40]))
+                           for _ in range(rng.choice([1, 1, 2]))]
     return case
 
 
@@ -401,6 +462,11 @@ def norm_case(case):
          'workers': [[norm_job(j) for j in jobs] for jobs in case['workers']]}
     if case.get('refuse'):
         c['refuse'] = [int(x) for x in case['refuse']]
+    for k in ('netfaults', 'tlsfaults'):
+        if case.get(k):
+            c[k] = {int(a): str(b) for a, b in dict(case[k]).items()}
+    if case.get('cancels'):
+        c['cancels'] = [(int(i), int(d)) for (i, d) in case['cancels']]
     return c
 
 
@@ -418,7 +484,16 @@ def check(ctx, case):
                 tags.append('front:mode=' + j[2])
     if case.get('refuse'):
         tags.append('front:connect-refused')
-    ctx.case(('front', case['stream'], case['seed'], case['M'], tuple(tuple(j) for j in case['workers']), tuple(case.get('refuse', ()))),
+    for k in ('netfaults', 'tlsfaults'):
+        for kind in (case.get(k) or {}).values():
+            tags.append('front:%s:%s' % (k, kind))
+    if case.get('cancels'):
+        tags.append('front:cancel')
+    if any('garbled' in j[0] for jobs in case['workers'] for j in jobs):
+        tags.append('front:garbled-connect-reply')
+    ctx.case(('front', case['stream'], case['seed'], case['M'], tuple(tuple(j) for j in case['workers']), tuple(case.get('refuse', ())),
+              tuple(sorted((case.get('netfaults') or {}).items())), tuple(sorted((case.get('tlsfaults') or {}).items())),
+              tuple(case.get('cancels', ()))),
              nontrivial=world.fetches > 1, tags=tags)
     for (kind, where, detail) in world.failures:
         ctx.fail(kind, where, case, detail)
